@@ -152,10 +152,16 @@ class OpRunner(object):
             return None
         calls = rec.setdefault('cb_calls', [])
 
+        dev = self.dev
+        is_async = self.is_async
+
         def cb(path, n, total):
             calls.append((path, n, total))
             if kind == 'raise':
                 raise RuntimeError('progress callback failed (scenario)')
+            if kind == 'reenter' and not is_async and len(calls) <= 3:
+                # a callback that uses the device (legal): another sync transaction while the transfer is in progress
+                rec.setdefault('reenter', []).append(dev.stat(op.get('reenter_path', '/sdcard/reenter')))
         return cb
 
     def _auth_cb(self, op, rec):
@@ -293,8 +299,8 @@ class OpRunner(object):
             return d.stat(op['path'], **self._kw(op, T[:2]))
         if k == 'pull':
             cb = self._callback(op, rec)
-            if op.get('dest', 'bytesio') == 'bytesio':
-                bio = io.BytesIO()
+            if op.get('dest', 'bytesio') in ('bytesio', 'failing'):
+                bio = io.BytesIO() if op.get('dest', 'bytesio') == 'bytesio' else _FailingBytesIO(op.get('fail_after', 1), rec)
                 rec['dest_obj'] = bio
                 try:
                     d.pull(op['path'], bio, progress_callback=cb, **self._kw(op, T[:2]))
@@ -436,8 +442,8 @@ class OpRunner(object):
             return await d.stat(op['path'], **self._kw(op, T[:2]))
         if k == 'pull':
             cb = self._callback(op, rec)
-            if op.get('dest', 'bytesio') == 'bytesio':
-                bio = io.BytesIO()
+            if op.get('dest', 'bytesio') in ('bytesio', 'failing'):
+                bio = io.BytesIO() if op.get('dest', 'bytesio') == 'bytesio' else _FailingBytesIO(op.get('fail_after', 1), rec)
                 rec['dest_obj'] = bio
                 try:
                     await d.pull(op['path'], bio, progress_callback=cb, **self._kw(op, T[:2]))
@@ -500,6 +506,21 @@ class OpRunner(object):
             if k == 't_write':
                 return await tr.bulk_write(expand(op['content']), op.get('timeout'))
         raise AssertionError('unknown op %r' % k)
+
+
+class _FailingBytesIO(io.BytesIO):
+    """A destination whose n-th write fails (disk full): the pull must stop and close its stream."""
+    def __init__(self, ok_writes, rec):
+        io.BytesIO.__init__(self)
+        self._ok = ok_writes
+        self._rec = rec
+
+    def write(self, data):
+        if self._ok <= 0:
+            self._rec['dest_raised'] = True
+            raise OSError(28, 'No space left on device (scenario)')
+        self._ok -= 1
+        return io.BytesIO.write(self, data)
 
 
 def _more_possible(run):
